@@ -821,14 +821,16 @@ class PolyRelu(PolyTaylorSeries):
             gelu,
             degree,
             ensure_bounded=ensure_bounded,
+            return_scale=return_scale,
             max_scale=max_scale,
             chebyshev_basis=chebyshev_basis,
             cheb_samples=cheb_samples)
+        if ensure_bounded and return_scale:
+            the_poly, scale = the_poly
         pcoefs = the_poly.coef
         # force odd coefficients to be zero, since the polynomial must be even
         pcoefs[1::2] = 0
         if ensure_bounded and return_scale:
-            scale = max_scale
             return pcoefs, scale
         else:
             return pcoefs
